@@ -92,7 +92,7 @@ impl<'a> Tr<'a> {
                         if f == *t {
                             Ok(Val { s: v.s, ty: target })
                         } else {
-                            Ok(Val { s: format!("(cast_{}_{} {})", f.name(), t.name(), v.s), ty: target })
+                            Ok(Val { s: format!("(Casts.cast_{}_{} {})", f.name(), t.name(), v.s), ty: target })
                         }
                     }
                     (Ty::Bool, Ty::Int(Some(_))) => Ok(Val { s: format!("(if {} then 1 else 0)", v.s), ty: target }),
@@ -123,6 +123,33 @@ impl<'a> Tr<'a> {
                     s: format!("({})", vs.iter().map(|v| v.s.clone()).collect::<Vec<_>>().join(", ")),
                     ty: Ty::Tuple(vs.into_iter().map(|v| v.ty).collect()),
                 })
+            }
+            Expr::Array(a) => {
+                if a.elems.len() < 2 {
+                    return Err(unsupported(e, "array literal with fewer than 2 elements"));
+                }
+                let hints: Vec<Option<Ty>> = match hint {
+                    Some(Ty::Tuple(ts)) if ts.len() == a.elems.len() => ts.iter().cloned().map(Some).collect(),
+                    _ => vec![None; a.elems.len()],
+                };
+                let mut vs = vec![];
+                for (x, h) in a.elems.iter().zip(hints.iter()) {
+                    vs.push(self.pure(x, env, h.as_ref())?);
+                }
+                Ok(Val {
+                    s: format!("({})", vs.iter().map(|v| v.s.clone()).collect::<Vec<_>>().join(", ")),
+                    ty: Ty::Tuple(vs.into_iter().map(|v| v.ty).collect()),
+                })
+            }
+            Expr::Index(ix) => {
+                let b = self.pure(&ix.expr, env, None)?;
+                match &*ix.index {
+                    Expr::Lit(ExprLit { lit: Lit::Int(i), .. }) => {
+                        let m: Member = syn::parse_str(i.base10_digits()).map_err(|x| x.to_string())?;
+                        self.field_of(&b, &m, e)
+                    }
+                    _ => Err(unsupported(e, "index expression whose index is not an integer literal")),
+                }
             }
             Expr::Range(r) => {
                 let (a, b) = match (&r.start, &r.end) {
@@ -176,6 +203,9 @@ impl<'a> Tr<'a> {
                     Member::Unnamed(i) => i.index.to_string(),
                 };
                 let f = s.fields.iter().find(|f| f.name == fname).ok_or_else(|| unsupported(at, &format!("`{}` has no field `{}`", n, fname)))?;
+                if f.proj == "-" {
+                    return Err(unsupported(at, &format!("field `{}` of `{}` has no projection in the configured mapping", fname, n)));
+                }
                 Ok(Val { s: format!("({} {})", f.proj, b.s), ty: f.ty.clone() })
             }
             (Ty::Tuple(ts), Member::Unnamed(i)) => {
@@ -386,6 +416,12 @@ impl<'a> Tr<'a> {
             return Err(unsupported(at, "qualified path `<T as Trait>::..`"));
         }
         let segs: Vec<String> = p.path.segments.iter().map(|s| s.ident.to_string()).collect();
+        if segs.len() >= 2 && self.generic_tys.contains(&segs[0]) {
+            return match env.get(&segs.join("::")) {
+                Some(v) => Ok(Val { s: v.coq.clone(), ty: v.ty.clone() }),
+                None => Err(unsupported(at, &format!("associated item `{}` of a generic parameter", segs.join("::")))),
+            };
+        }
         if segs.len() == 1 {
             let n = &segs[0];
             if let Some(v) = env.get(n) {
